@@ -10,6 +10,8 @@ import (
 	"strconv"
 	"strings"
 	"testing"
+
+	"pgregory.net/rapid"
 )
 
 // Native, coverage-guided fuzzing (go test -fuzz) next to the rapid search.
@@ -187,5 +189,68 @@ func Warm[K any](p Prop[K]) {
 			excl[f.Exclusion] = true
 			mu.Unlock()
 		}
+	}
+}
+
+// FuzzRapid is a native fuzz target over the generator of an existing sub-property: the fuzzer's bytes are the random
+// bit stream of rapid (rapid.MakeFuzz), so coverage guidance steers the same generator that the rapid search draws
+// from, and every case found is an ordinary case of p (same counters, same replay format, replayed by RunProp).
+// Built-in inputs are pseudo-random byte strings from a fixed recurrence; bytes that run out before the generator is
+// done are skipped by rapid.
+func FuzzRapid[K any](f *testing.F, pkg string, p Prop[K], warm ...func()) {
+	if C.ReplayIn != "" {
+		f.Skip("replay files are run by the sub-property itself")
+	}
+	campaign := FuzzCampaign()
+	if !campaign && C.Shard != 0 {
+		f.Skip("the corpus pass is the same in every shard")
+	}
+	if campaign {
+		quiet = true
+	}
+	for _, w := range warm {
+		w()
+	}
+	Warm(p)
+	x := uint64(88172645463325252)
+	for i := 0; i < 24; i++ {
+		b := make([]byte, 64+i*24)
+		for j := range b {
+			x ^= x << 13
+			x ^= x >> 7
+			x ^= x << 17
+			b[j] = byte(x >> 32)
+		}
+		f.Add(b)
+	}
+	for _, d := range corpusDirs(pkg, f.Name()) {
+		files, _ := filepath.Glob(filepath.Join(d, "*"))
+		sort.Strings(files)
+		for _, fn := range files {
+			if b, ok := CorpusFile(fn); ok {
+				f.Add(b)
+			}
+		}
+	}
+	n := 0
+	f.Fuzz(rapid.MakeFuzz(func(rt *rapid.T) {
+		c := p.Gen(rt)
+		r := safeRun(p, c)
+		if campaign {
+			if r.Err != "" {
+				rt.Fatalf("%s", r.Err)
+			}
+			return
+		}
+		r.Classes = append(r.Classes, "fuzz-corpus-input")
+		Account(p.Name, c, r)
+		n++
+		if r.Err != "" {
+			Violate(p.Name, c, r.Err)
+			rt.Fatalf("%s", r.Err)
+		}
+	}))
+	if !campaign {
+		Note("%s: %d corpus inputs decoded by the generator of %s and run through its oracle", f.Name(), n, p.Name)
 	}
 }
